@@ -613,6 +613,11 @@ class EnvSaveLoad(Bounded):
         vals = ['', 'a', "-O2 'q'"]
         for i, (iv, cv) in enumerate(_it.product(vals, repeat=2)):
             yield {'initial': {'CC': iv, 'KEEP': 'k'}, 'set': {'CFLAGS': cv, 'CC': cv}, 'delete': ['KEEP'] if i % 2 else []}
+        # values outside ASCII (also a byte that is not UTF-8, as os.environ delivers it), reloaded by a process in the
+        # C locale
+        yield {'initial': {'CC': 'cc', 'UNI': 'caf\u00e9 \u2603'}, 'set': {'RAW': 'caf\udce9'}, 'delete': [], 'reload_in_c_locale': True}
+        # the backend's tool was not found at configure time: its version is unknown
+        yield {'initial': {'CC': 'cc'}, 'set': {}, 'delete': [], 'unknown_backend_version': True}
         # a cross configuration: another target platform (species different from its genus) and install
         # directories that are not set
         for tgt in ('android', 'macos', 'winnt', 'linux'):
@@ -652,6 +657,8 @@ class EnvSaveLoad(Bounded):
         with tempfile.TemporaryDirectory() as tmp:
             env = E.Environment(bfgdir=Path('/usr/bin/', Root.absolute), backend='make', backend_version=Version('4.3'),
                                 srcdir=Path(tmp + '/src', Root.absolute), builddir=Path(tmp + '/build', Root.absolute))
+            if raw.get('unknown_backend_version'):
+                env.backend_version = None
             env.variables = EnvVarDict(dict(raw['initial']))
             for k, v in raw['set'].items():
                 env.variables[k] = v
@@ -665,8 +672,21 @@ class EnvSaveLoad(Bounded):
                 for k in list(env.install_dirs)[:2]:
                     env.install_dirs[k] = None
             os.makedirs(tmp + '/build')
-            env.save(tmp + '/build')
+            try:
+                env.save(tmp + '/build')
+            except Exception as e:      # noqa
+                return self.fail(case, raw, 'configuration_can_be_saved', error=repr(e)[:200])
             fn = os.path.join(tmp, 'build', E.Environment.envfile)
+            if raw.get('reload_in_c_locale') and to == 17:
+                import subprocess
+                from pyvc.interp import REPO
+                code = ("import sys; from bfg9000.environment import Environment; e = Environment.load(sys.argv[1]); "
+                        "print(ascii(sorted(e.variables.items())))")
+                envp = {'PATH': os.environ['PATH'], 'PYTHONPATH': REPO, 'LC_ALL': 'C', 'PYTHONUTF8': '0', 'PYTHONCOERCECLOCALE': '0'}
+                pr = subprocess.run(['/venv/bin/python', '-c', code, tmp + '/build'], env=envp, capture_output=True, text=True)
+                if pr.returncode != 0 or pr.stdout.strip() != ascii(sorted(env.variables.items())):
+                    return self.fail(case, raw, 'reloaded_in_another_locale_equals_saved', exit=pr.returncode,
+                                     got=pr.stdout.strip()[:200], stderr=pr.stderr[-200:])
             state = _json.load(open(fn))
             if to < 17:
                 _json.dump(self.downgrade(state, to), open(fn, 'w'))
@@ -683,7 +703,7 @@ class EnvSaveLoad(Bounded):
             for f in ('srcdir', 'builddir', 'bfgdir', 'backend', 'extra_args', 'library_mode'):
                 if getattr(env2, f) != getattr(env, f):
                     problems[f] = (repr(getattr(env2, f)), repr(getattr(env, f)))
-            if str(env2.backend_version) != str(env.backend_version):
+            if str(env2.backend_version) != str(env.backend_version) or (env2.backend_version is None) != (env.backend_version is None):
                 problems['backend_version'] = str(env2.backend_version)
             def plain(dirs):
                 return {k: None if v is None else (v.root, v.suffix, v.destdir, v.directory) for k, v in dirs.items()}
